@@ -202,3 +202,33 @@ Lemma stride_exact nbits nchans n : In nbits [1; 2; 4; 8; 16; 32] -> (nchans * n
 Proof. intros _ Hm. assert (E : nchans * nbits = 8 * (nchans * nbits / 8)) by (apply Z.div_exact; lia).
   replace (n * nchans * nbits) with ((n * (nchans * nbits / 8)) * 8) by lia.
   rewrite Z.div_mul by lia. rewrite Z.mod_mul by lia. split; reflexivity. Qed.
+
+(** the blocks themselves (used by the streaming reductions of C06/C07) *)
+Definition plan_blocks (fs : list file) (nch start g sb nreads lr : Z) : list (Z * Z * list Z) :=
+  map (blk fs nch start g sb) (zrange nreads) ++
+  (if lr =? 0 then [] else [(lr, nreads, slice (flat fs) (P nch start g sb nreads) (lr * nch))]).
+
+Lemma run_plan_explicit fs nch N gulp0 start nsamps skipback0 :
+  1 <= nfiles fs -> 1 <= nch -> total fs = N * nch ->
+  0 <= start -> 1 <= nsamps -> start + nsamps <= N -> 1 <= gulp0 ->
+  Z.abs skipback0 < Z.min nsamps gulp0 ->
+  exists g sb nreads lr, plan_facts gulp0 nsamps skipback0 g sb nreads lr /\
+    run_plan fs nch gulp0 start nsamps skipback0 = POk (plan_blocks fs nch start g sb nreads lr).
+Proof. intros Hf Hc Ht Hs0 Hn Hr Hg Hsb. unfold run_plan.
+  replace (total fs / nch) with N by (rewrite Ht; symmetry; apply Z.div_mul; lia). rewrite Ht.
+  destruct (fil_plan_eq gulp0 start nsamps skipback0 N nch Hg Hn Hsb) as [g [sb [nreads [lr [-> F]]]]].
+  exists g, sb, nreads, lr. split; [exact F|].
+  destruct F as [Fg Fsb Fsblt Fnr Ffit Flast Fcov].
+  destruct (init_inv fs Hf) as [HI0 Ha0].
+  destruct (seek_set_ok fs (init fs) (start * nch) ltac:(nia)) as [s0 [-> [HIs Has]]].
+  unfold plan_blocks, zrange. set (k := Z.to_nat nreads). assert (Hk : Z.of_nat k = nreads) by lia.
+  assert (Has' : absp fs s0 = P nch start g sb (Z.of_nat 0)) by (rewrite Has; unfold P; cbn; lia).
+  destruct (full_blocks fs nch N start nsamps g sb Hc Ht Hs0 Hn Hr Fsblt
+              (if lr =? 0 then [] else [(nreads, lr * nch, 0)]) k 0%nat s0 [] HIs Has') as [s1 [-> [HI1 Ha1]]].
+  { right. rewrite Hk. cbn. lia. }
+  cbn [app]. rewrite Nat.add_0_l, Hk in Ha1.
+  destruct (Z.eqb_spec lr 0) as [E|NE].
+  - cbn [plan_loop]. rewrite app_nil_r. reflexivity.
+  - destruct Flast as [?|Flast]; [contradiction|].
+    rewrite (last_block fs nch N start nsamps g sb Hc Ht Hs0 Hr Fsblt s1 nreads lr _ HI1 Ha1) by (try lia; destruct (lr =? 0); nia).
+    reflexivity. Qed.
